@@ -34,7 +34,7 @@ KINDS = ["tensor:stR", "tensor:stR-ops", "tensor:stR-sec", "tensor:stR-TD", "ten
          "prop:A:0", "prop:A:1", "prop:A:2", "prop:B:0", "prop:B:1", "prop:A:0:6", "prop:B:2:2",
          "prop:A:0:4:n2", "prop:A:1:4:n3", "prop:B:0:4:n2", "prop:A:0:4:n2", "prop:B:1:6:n2",
          "prop:N:0", "prop:N:1", "prop:N:2", "prop:N2:0", "prop:N2:1", "prop:T:0", "prop:T:1", "prop:T2:1",
-         "eU:calc", "eU:next", "sv:0", "sv:1", "pop", "pop:U", "pop:corr", "pop:corr", "pop", "heom:0", "heom:1", "heom:free", "abs"]
+         "eU:calc", "eU:next", "eU:calcB", "eU:nextB", "sv:0", "sv:1", "pop", "pop:U", "pop:corr", "pop:corr", "pop", "heom:0", "heom:1", "heom:free", "abs"]
 
 
 def gen_cases(tier, rng):
@@ -106,6 +106,11 @@ def run_case(case, ctx):
             eU.set_dense_dt(2)
             eJ = qr.EvolutionSuperOperator(time=qr.TimeAxis(0.0, 6, 4.0), ham=hamA, relt=RA, mode="jit")
             eJ.set_dense_dt(2)
+            # evolution superoperators over the operator-form tensor that propagator B shares
+            eUB = qr.EvolutionSuperOperator(time=qr.TimeAxis(0.0, 6, 4.0), ham=hamB, relt=RB)
+            eUB.set_dense_dt(2)
+            eJB = qr.EvolutionSuperOperator(time=qr.TimeAxis(0.0, 6, 4.0), ham=hamB, relt=RB, mode="jit")
+            eJB.set_dense_dt(2)
             svp = StateVectorPropagator(qr.TimeAxis(0.0, 15, 0.5), ham)
             Kpop = numpy.array([[-0.02, 0.005, 0.0], [0.02, -0.015, 0.01], [0.0, 0.01, -0.01]])
             popp = PopulationPropagator(qr.TimeAxis(0.0, 30, 1.0), Kpop)
@@ -198,6 +203,15 @@ def run_case(case, ctx):
             if kind == "eU:calc":
                 eU.calculate(show_progress=False)
                 return kind, arr(eU.data).ravel()
+            if kind == "eU:calcB":
+                eUB.calculate(show_progress=False)
+                return kind, arr(eUB.data).ravel()
+            if kind == "eU:nextB":
+                sig = "eU:nextB|now=%d" % eJB.now
+                if eJB.now >= eJB.time.length - 1:
+                    return None, None
+                eJB.calculate_next()
+                return sig, arr(eJB.data).ravel()
             if kind == "eU:next":
                 sig = "eU:next|now=%d" % eJ.now
                 if eJ.now >= eJ.time.length - 1:
